@@ -1,11 +1,54 @@
 (** C08  Coarsening by k is exact block aggregation within each chromosome.
-    Only statements; proofs are in Proofs/CoarsenProofs.v. *)
+    Only statements; proofs are in Proofs/CoarsenProofs.v.  Model: Model/Coarsen.v
+    (coarsen_bins, GenomeSegmentation, rebin by start coordinate, coarse-row edges,
+    _greedy_prune_partition, the chunk stream).  A bin table is given as chromosome blocks
+    [blocks] (ValidBlocks: block i is a non-empty tiling of chromosome i from 0); the flat table
+    the code sees is [concat blocks], chromsizes = [map chrom_end blocks]. *)
 From Cooler Require Import Model.Coarsen Proofs.BinsProofs Proofs.PixelsProofs Proofs.CoarsenProofs.
 From Coq Require Import Sorted.
 
-(** _greedy_prune_partition never splits or duplicates a coarse row: for every non-decreasing list of
-    coarse-row edges from 0 and every chunk size >= 1 the pruned edges are a sub-sequence of the given
-    edges (strictly increasing positions), begin with 0, end with nnz and strictly increase. *)
+(* ------------------------------------------------------------------ 1. the new bin table *)
+(** new bin q of chromosome c is [start(old c (q*k)), end(old c (min(q*k+k, n_c) - 1))), there are
+    ceil(n_c/k) of them, the new table is a valid tiling with the same chromosome ends *)
+Theorem C08_coarsen_bins_spec : forall blocks k, 1 <= k -> ValidBlocks blocks ->
+  let nb := map (fun blk => map (fun q =>
+                   let x := nth (Z.to_nat (q * k)) blk bin0 in
+                   (bchrom x, bstart x, bend (nth (Z.to_nat (Z.min (q * k + k) (zlen blk) - 1)) blk bin0)))
+                 (zrange 0 (Z.to_nat (cdiv (zlen blk) k)))) blocks in
+  coarsen_bins (concat blocks) (map chrom_end blocks) k = concat nb /\
+  ValidBlocks nb /\ map chrom_end nb = map chrom_end blocks /\
+  map zlen nb = map (fun blk => cdiv (zlen blk) k) blocks.
+Proof. exact coarsen_bins_spec. Qed.
+Print Assumptions C08_coarsen_bins_spec.
+
+(* ------------------------------------------- 2. re-binning by start coordinate = by index *)
+(** the table old-bin-id -> new-bin-id computed by _aggregate from chromosome and START coordinate
+    (division when the new table reports a bin size, searchsorted otherwise) is
+    new_off c + m / k  for the old bin at relative index m of chromosome c *)
+Theorem C08_rebin_eq_index : forall blocks k, 1 <= k -> ValidBlocks blocks ->
+  rebin_table (concat blocks) (map chrom_end blocks) k = index_table (map zlen blocks) k.
+Proof. exact rebin_eq_index. Qed.
+Print Assumptions C08_rebin_eq_index.
+
+(** both paths separately: the searchsorted path is right on every valid table, the division path
+    whenever the NEW table reports a bin size (uses C20 binsize_truthful) *)
+Theorem C08_rebin_search_path : forall blocks k, 1 <= k -> ValidBlocks blocks ->
+  let newt := concat (map (coarsen_block k) blocks) in
+  map (rebin_bin_search newt (map chrom_end blocks)) (concat blocks) = index_table (map zlen blocks) k.
+Proof. exact rebin_search_table. Qed.
+Print Assumptions C08_rebin_search_path.
+
+Theorem C08_rebin_division_path : forall blocks k, 1 <= k -> ValidBlocks blocks ->
+  let newt := concat (map (coarsen_block k) blocks) in
+  forall bs, get_binsize newt = Some bs ->
+  map (rebin_bin_div newt bs) (concat blocks) = index_table (map zlen blocks) k.
+Proof. exact rebin_div_table. Qed.
+Print Assumptions C08_rebin_division_path.
+
+(* ------------------------------------------------- 3. no coarse row is split or duplicated *)
+(** _greedy_prune_partition, for EVERY non-decreasing edge list from 0 and every chunk size >= 1:
+    the result is a sub-sequence of the edges (strictly increasing positions), starts at 0, ends at
+    the total and is strictly increasing in value *)
 Theorem C08_prune_subsequence : forall rest maxlen,
   let edges := 0 :: rest in
   StronglySorted Z.le edges -> 1 <= maxlen ->
@@ -16,11 +59,119 @@ Theorem C08_prune_subsequence : forall rest maxlen,
 Proof. exact prune_subsequence. Qed.
 Print Assumptions C08_prune_subsequence.
 
-(** per-chunk canonical aggregates of pairwise ordered chunks concatenate to the canonical aggregate *)
+(** the coarse-row edges built from the chromosome offsets and bin1_offset, for any row-sorted pixel
+    list, any k and any bin counts: a non-decreasing list from 0 to nnz each of whose entries is an
+    ALIGNED cut (every re-keyed row before it is smaller than every re-keyed row after it) *)
+Theorem C08_coarse_edges_aligned : forall lens px k,
+  1 <= k -> Forall (fun n => 1 <= n) lens -> RowSorted px -> Forall (fun p => 0 <= row p < sumZ lens) px ->
+  let E := coarse_edges (0 :: cumsum lens) (bin1_offset (sumZ lens) px) k in
+  (exists rest, E = 0 :: rest) /\ StronglySorted Z.le E /\ last E 0 = zlen px /\
+  Forall (fun c => AlignedCut (fun r => znth (index_table lens k) r 0) px (Z.to_nat c)) E.
+Proof. exact coarse_edges_facts. Qed.
+Print Assumptions C08_coarse_edges_aligned.
+
+(* ----------------------------------------- 4. the chunk stream is the canonical aggregate *)
 Theorem C08_chunks_canon : forall parts,
   ForallOrdPairs KeysBefore parts -> concat (map aggregate parts) = aggregate (concat parts).
 Proof. exact chunks_canon. Qed.
 Print Assumptions C08_chunks_canon.
+
+(** coarsen_cooler's pixel table = canonical aggregate of the pixels re-keyed BY INDEX, for every
+    valid bin table (fixed or variable), k >= 1, chunk size >= 1 and batch size (= nproc) >= 1
+    — hypothesis of the model: results of a batch come back in order (Pool.map) *)
+Theorem C08_coarsen_canon : forall blocks px k chunksize batchsize,
+  1 <= k -> 1 <= chunksize -> 1 <= batchsize -> ValidBlocks blocks ->
+  RowSorted px -> InRangeRows (zlen (concat blocks)) px ->
+  coarsen_pixels (concat blocks) (map chrom_end blocks) px k chunksize batchsize
+  = aggregate (map (rekey (index_table (map zlen blocks) k)) px)
+  /\ Canon (map (rekey (index_table (map zlen blocks) k)) px)
+           (coarsen_pixels (concat blocks) (map chrom_end blocks) px k chunksize batchsize).
+Proof. intros. split; [now apply coarsen_canon|now apply coarsen_is_canon]. Qed.
+Print Assumptions C08_coarsen_canon.
+
+Theorem C08_chunksize_nproc_independent : forall blocks px k cs1 bs1 cs2 bs2,
+  1 <= k -> 1 <= cs1 -> 1 <= bs1 -> 1 <= cs2 -> 1 <= bs2 -> ValidBlocks blocks ->
+  RowSorted px -> InRangeRows (zlen (concat blocks)) px ->
+  coarsen_pixels (concat blocks) (map chrom_end blocks) px k cs1 bs1 =
+  coarsen_pixels (concat blocks) (map chrom_end blocks) px k cs2 bs2.
+Proof. exact coarsen_chunk_independent. Qed.
+Print Assumptions C08_chunksize_nproc_independent.
+
+Theorem C08_totals_preserved : forall blocks px k chunksize batchsize,
+  1 <= k -> 1 <= chunksize -> 1 <= batchsize -> ValidBlocks blocks ->
+  RowSorted px -> InRangeRows (zlen (concat blocks)) px ->
+  total (coarsen_pixels (concat blocks) (map chrom_end blocks) px k chunksize batchsize) = total px.
+Proof. exact coarsen_total. Qed.
+Print Assumptions C08_totals_preserved.
+
+(* --------------------------------------------------------- 5. composition and merging *)
+(** k1 then k2 equals k1*k2: bin table and pixel table, fixed AND variable widths, any chunking *)
+Theorem C08_coarsen_compose : forall blocks px k1 k2 cs1 bs1 cs2 bs2 cs bs,
+  1 <= k1 -> 1 <= k2 -> 1 <= cs1 -> 1 <= bs1 -> 1 <= cs2 -> 1 <= bs2 -> 1 <= cs -> 1 <= bs ->
+  ValidBlocks blocks -> RowSorted px -> InRange (zlen (concat blocks)) px ->
+  let sizes := map chrom_end blocks in
+  let c1 := coarsen_cooler (concat blocks) sizes px k1 cs1 bs1 in
+  coarsen_cooler (fst c1) sizes (snd c1) k2 cs2 bs2 = coarsen_cooler (concat blocks) sizes px (k1 * k2) cs bs.
+Proof. exact coarsen_compose. Qed.
+Print Assumptions C08_coarsen_compose.
+
+Theorem C08_index_table_compose : forall lens k1 k2, 1 <= k1 -> 1 <= k2 -> Forall (fun n => 0 <= n) lens ->
+  map (fun v => znth (index_table (map (fun n => cdiv n k1) lens) k2) v 0) (index_table lens k1)
+  = index_table lens (k1 * k2).
+Proof. exact index_table_compose. Qed.
+Print Assumptions C08_index_table_compose.
+
+(** coarsening commutes with merging; merging is specified as the canonical aggregate of the
+    concatenated inputs (property C07) *)
+Theorem C08_coarsen_merge_commute : forall lens a b k,
+  coarsen_spec lens (aggregate (a ++ b)) k = aggregate (coarsen_spec lens a k ++ coarsen_spec lens b k).
+Proof. exact coarsen_merge_commute. Qed.
+Print Assumptions C08_coarsen_merge_commute.
+
+(* ----------------------------------------------------- executable hypotheses are sound *)
+Theorem C08_hypotheses_decidable : forall blocks px,
+  valid_blocks_b blocks = true -> ssorted_b px = true -> inrange_b (zlen (concat blocks)) px = true ->
+  ValidBlocks blocks /\ RowSorted px /\ InRange (zlen (concat blocks)) px /\ InRangeRows (zlen (concat blocks)) px.
+Proof.
+  intros blocks px H1 H2 H3. split; [now apply valid_blocks_b_sound|]. split; [now apply ssorted_b_rowsorted|].
+  split; [now apply inrange_b_sound|now apply inrange_rows, inrange_b_sound].
+Qed.
+Print Assumptions C08_hypotheses_decidable.
+
+(* ------------------------------------------------------------------------ non-vacuity *)
+Definition ex_blocks : list (list bin) := [[(0,0,10);(0,10,20);(0,20,35)]; [(1,0,7);(1,7,9)]].
+Definition ex_px : list pixel := [((0,0),1);((0,2),2);((1,1),3);((1,4),1);((2,3),5);((3,3),1);((3,4),2)].
+
+(** a variable-width table (longer last bin, defect D1) with a chromosome shorter than k: hypotheses hold,
+    the stream has several chunks and equals the index-based aggregate *)
+Example ex_C08_hypotheses :
+  valid_blocks_b ex_blocks = true /\ ssorted_b ex_px = true /\ inrange_b (zlen (concat ex_blocks)) ex_px = true.
+Proof. vm_compute. repeat split; reflexivity. Qed.
+
+Example ex_C08_coarsen :
+  coarsen_cooler (concat ex_blocks) (map chrom_end ex_blocks) ex_px 2 1 1 =
+    ([(0,0,20);(0,20,35);(1,0,9)], [((0,0),4);((0,1),2);((0,2),1);((1,2),5);((2,2),3)]) /\
+  coarsener_edges (concat ex_blocks) ex_px 2 1 = [0; 4; 5; 7] /\
+  rebin_table (concat ex_blocks) (map chrom_end ex_blocks) 2 = [0; 0; 1; 2; 2] /\
+  get_binsize (coarsen_bins (concat ex_blocks) (map chrom_end ex_blocks) 2) = Some 20.
+Proof. vm_compute. repeat split; reflexivity. Qed.
+
+(** a variable table whose k=2 coarsening reports a fixed size: the division path is taken *)
+Example ex_C08_division_path :
+  let blocks := [[(0,0,3);(0,3,10);(0,10,13);(0,13,20)]; [(1,0,5);(1,5,10)]] in
+  valid_blocks_b blocks = true /\ get_binsize (concat blocks) = None /\
+  get_binsize (coarsen_bins (concat blocks) (map chrom_end blocks) 2) = Some 10 /\
+  rebin_table (concat blocks) (map chrom_end blocks) 2 = [0; 0; 1; 1; 2; 2].
+Proof. vm_compute. repeat split; reflexivity. Qed.
+
+(** a variable table whose coarsening is variable too: the searchsorted path is taken *)
+Example ex_C08_search_path :
+  let blocks := [[(0,0,3);(0,3,11);(0,11,15);(0,15,21);(0,21,30)]; [(1,0,4)]] in
+  valid_blocks_b blocks = true /\
+  get_binsize (coarsen_bins (concat blocks) (map chrom_end blocks) 2) = None /\
+  coarsen_bins (concat blocks) (map chrom_end blocks) 2 = [(0,0,11);(0,11,21);(0,21,30);(1,0,4)] /\
+  rebin_table (concat blocks) (map chrom_end blocks) 2 = [0; 0; 1; 1; 2; 3].
+Proof. vm_compute. repeat split; reflexivity. Qed.
 
 Example ex_C08_prune :
   greedy_prune_partition [0; 2; 2; 5; 7; 7] 3 = [0; 5; 7] /\ greedy_prune_partition [0; 0; 0] 4 = [0].
